@@ -5,7 +5,7 @@
    S = the ONNX direct-convolution formula (conv1d_spec / conv2d_spec here; Conv.conv_spec with the
    ONNX pad and dilation rules in the correspondence check). *)
 From Coq Require Import List ZArith Bool String Lia.
-From V Require Import DType Tensor Case Writes ConvLoop ConvLoopProofs Conv ConvProofs.
+From V Require Import DType Tensor Case Writes ConvLoop ConvLoopProofs Conv ConvProofs ConvRefines.
 Import ListNotations.
 
 (* The loop nests ARE the direct convolution: for every batch size, channel and kernel count, every
@@ -73,6 +73,17 @@ Proof. exact (conv_model_ok_rank cf x k b t). Qed.
 Theorem C05_no_panic cf x k b :
   (forall i, 0 <= fst (code_pads cf x k i) /\ 0 <= snd (code_pads cf x k i)) -> conv_model cf x k b <> MPanic.
 Proof. exact (conv_model_no_panic cf x k b). Qed.
+
+(* END TO END: whenever the model of conv.go returns a tensor and auto_pad is not VALID, it is EXACTLY
+   the tensor of the independent ONNX specification conv_spec (direct convolution with taps at k * dilation
+   of the input zero-padded by the ONNX pads, ONNX output extents, bias per output channel) -- 1-D and 2-D,
+   every dilation, stride, pad, auto_pad NOTSET / SAME_UPPER / SAME_LOWER, with or without bias. The
+   hypotheses only say that the operands are a convolution at all (kernel rank and channel count match the
+   input, kernel extents, strides and dilations >= 1, the dilated kernel fits into the padded input). *)
+Theorem C05_model_refines_spec cf x k bias t :
+  conv_wf_min cf x k -> c_auto cf <> Valid -> conv_model cf x k bias = MOk t -> t = conv_spec cf x k bias.
+Proof. exact (conv_model_refines_spec_min cf x k bias t). Qed.
+Print Assumptions C05_model_refines_spec.
 
 (* the known-finding class is real: for auto_pad = VALID the code pads like SAME_UPPER, ONNX does not pad *)
 Example C05_valid_refuted :
